@@ -58,12 +58,13 @@ package zksch
 
 //@ func (*Response).Verify
 //@   nopanic[C05]
-//@   modifies nothing
-//@   allocates
+//@   modifies hstate(hash)
 //@   requires hash != nil && hash.h != nil && public != nil && commitment != nil && shapedComm(commitment) && (z != nil ==> shapedResp(z))
 
 //@ func (*Proof).Verify
 //@   nopanic[C05]
-//@   modifies nothing
-//@   allocates
+//@   modifies hstate(hash)
 //@   requires hash != nil && hash.h != nil && public != nil && (p != nil ==> shapedProof(p))
+
+//@ func (*Commitment).WriteTo
+//@   ensures[C10,C19] result1 == nil ==> wlog(w) == wcat(old(wlog(w)), benc(c.C))
